@@ -609,6 +609,22 @@ impl Parser<'_, '_> {
                 | Token::IpV6(_)
                 | Token::Asn(_)
                 | Token::String(_)
+                | Token::Char(_)
+                | Token::Hex(_)
+                | Token::FStringStart
+                | Token::Keyword(
+                    Keyword::Accept
+                        | Keyword::Reject
+                        | Keyword::Return
+                        | Keyword::If
+                        | Keyword::Match
+                        | Keyword::While
+                        | Keyword::For
+                        | Keyword::Super
+                        | Keyword::Pkg
+                        | Keyword::Dep
+                        | Keyword::Std
+                )
         )
     }
 
